@@ -405,6 +405,11 @@ def c18(ctx):
             ok, _ = model_check(ctx, mod + ".tla", "%s_%s.cfg" % (mod, neg), expect_ok=False)
             if ok:
                 raise Infra("model control failed: %s accepts %s" % (mod, what))
+    # the hand-scheduled squaring routines, term by term, at the real limb COUNT (5 and 10) and scaled widths, every reduced operand
+    for cfg, ok_expected in (("FieldSquare_f51.cfg", True), ("FieldSquare_f32.cfg", True), ("FieldSquare_neg51.cfg", False), ("FieldSquare_neg32.cfg", False)):
+        ok, _ = model_check(ctx, "FieldSquare.tla", cfg, expect_ok=ok_expected)
+        if ok and not ok_expected:
+            raise Infra("model control failed: FieldSquare accepts " + cfg)
     model_check(ctx, "MCDecode.tla", "MCDecode.cfg")
     num_family(ctx, NUM_CONFIGS_THOROUGH if ctx.thorough else NUM_CONFIGS_QUICK)
     finish(ctx, "field operations of both limb layouts (5x51 in the default build, 10x25.5 with force32bit) driven on reduced elements from limb-boundary byte patterns (each limb 0 / 1 / mask-19 / mask-1 / mask / random, "
